@@ -312,6 +312,7 @@ struct Runner {
   };
 
   int cfg_id = 0;
+  std::unordered_set<uint32_t> throw_sizes_;
   ConfigResult res;
   bool replay_verbose = false;
 
@@ -883,8 +884,8 @@ struct Runner {
     if (i != n) return mk("forward iteration stops early", which);
     return {};
   }
-  static Err all_observers(Env& e) {
-    Err r = deep(*e.v, e.mv, "v", true);
+  static Err all_observers(Env& e, bool throws = true) {
+    Err r = deep(*e.v, e.mv, "v", throws);
     if (!r.bad()) r = deep(*e.w, e.mw, "w", false);
     if (!r.bad()) r = compare_ops(*e.v, *e.w, e.mv, e.mw);
     return r;
@@ -893,7 +894,7 @@ struct Runner {
   // `seen`: canonical states whose observers were already checked (the complete observer set runs
   // once per canonical state, the light one after every evaluation); nullptr = always run all.
   Outcome evaluate(const Hist& h, const std::string* expect_key, bool tainted, const Op* op, bool check_every_step,
-                   const std::unordered_set<std::string>* seen = nullptr) {
+                   const std::unordered_set<std::string>* seen = nullptr, bool last_level = false) {
     Outcome out;
     auto& reg = seq::registry();
     reg.reset();
@@ -956,7 +957,12 @@ struct Runner {
         if (!r.bad()) {
           key_of(e, tainted || out.life.bad());
           have_key = true;
-          if (!seen || !seen->count(t_keybuf)) r = all_observers(e);
+          if (!seen || !seen->count(t_keybuf)) {
+            // at(size()) must throw: every new state, except on the last level once per (size, first-bucket shift)
+            // (a throw costs a sigaltstack syscall under ASan and at() only reads size_)
+            bool thr = !last_level || throw_sizes_.insert((uint32_t)((e.v->size() << 8) | e.v->firstBucketShift_)).second;
+            r = all_observers(e, thr);
+          }
         }
         out.content = r;
       }
@@ -1069,6 +1075,7 @@ struct Runner {
       s.key = o.key;
       seen.insert(o.key);
       cur.push_back(s);
+      res.level_states.clear();
       res.level_states.push_back(1);
     }
     std::vector<Op> alpha;
@@ -1077,12 +1084,12 @@ struct Runner {
       for (const StateRec& s : cur) {
         alphabet(t, s.sv, s.sw, alpha);
         for (const Op& op : alpha) {
-          Outcome o = evaluate(s.hist, &s.key, s.tainted, &op, false, &seen);
+          Outcome o = evaluate(s.hist, &s.key, s.tainted, &op, false, &seen, d + 1 == t.depth);
           if (o.heap_unbalanced) {
             // one-time allocations (stdio, unordered_map rehash...) disappear on a second run
-            Outcome o2 = evaluate(s.hist, &s.key, s.tainted, &op, false, &seen);
+            Outcome o2 = evaluate(s.hist, &s.key, s.tainted, &op, false, &seen, d + 1 == t.depth);
             if (o2.heap_unbalanced) {
-              if (!res.diag_heap && getenv("C32_TRACE_HEAP")) { g_trace_heap = true; evaluate(s.hist, &s.key, s.tainted, &op, false, &seen); g_trace_heap = false; }
+              if (!res.diag_heap && getenv("C32_TRACE_HEAP")) { g_trace_heap = true; evaluate(s.hist, &s.key, s.tainted, &op, false, &seen, d + 1 == t.depth); g_trace_heap = false; }
               res.diag_heap++;
               if (res.diag_heap_first.empty()) res.diag_heap_first = hist_text(s.hist, &op);
             }
@@ -1094,7 +1101,7 @@ struct Runner {
             uint64_t hh = seq::mix(0x32c32, (uint64_t)cfg_id);
             for (auto& x : s.hist) hh = seq::mix(hh, ((uint64_t)x.k << 32) ^ ((uint64_t)(uint16_t)x.a << 16) ^ (uint16_t)x.b);
             hh = seq::mix(hh, ((uint64_t)op.k << 32) ^ ((uint64_t)(uint16_t)op.a << 16) ^ (uint16_t)op.b);
-            res.distinct.push_back(hh);
+            if (res.distinct.size() < 4096) res.distinct.push_back(hh);
             if (res.samples.size() < 2 && d == t.depth - 1 && (res.evaluations % 977) == 0)
               res.samples.push_back("{\"config\":\"" + cfg_text(cfg_id) + "\",\"ops\":\"" + hist_text(s.hist, &op) + "\"}");
           }
@@ -1125,7 +1132,8 @@ struct Runner {
       }
       cur.swap(next);
     }
-    res.states = seen.size();
+    res.states += seen.size();
+    throw_sizes_.clear();
   }
 
   // replay a stored history with every check after every step; returns 1 if anything is wrong
@@ -1170,17 +1178,17 @@ static std::string cfg_text(int cfg) {
 }
 
 template <int Cap, bool Inline, bool Fast, RS S>
-static void run_cfg(int id, const Tier& t, const Hist* replay_hist, ConfigResult* out, int* rc) {
+static void run_cfg(int id, const std::vector<Tier>& passes, const Hist* replay_hist, ConfigResult* out, int* rc) {
   Runner<Cap, Inline, Fast, S> r;
   r.cfg_id = id;
   if (replay_hist) {
     *rc = r.replay(*replay_hist);
     return;
   }
-  r.run(t);
+  for (const Tier& t : passes) r.run(t);
   *out = std::move(r.res);
 }
-using RunFn = void (*)(int, const Tier&, const Hist*, ConfigResult*, int*);
+using RunFn = void (*)(int, const std::vector<Tier>&, const Hist*, ConfigResult*, int*);
 static std::vector<RunFn> g_fns;
 
 template <int Cap, bool Inline, bool Fast>
@@ -1209,6 +1217,7 @@ static std::string ints(const std::vector<int>& v) {
 int main(int argc, char** argv) {
   std::string tier = "quick", replay_file;
   int only_cfg = -1, depth_override = 0;
+  std::vector<int> args_override, small_override;
   for (int i = 1; i < argc; i++) {
     std::string a = argv[i];
     if (a == "--tier" && i + 1 < argc)
@@ -1219,6 +1228,10 @@ int main(int argc, char** argv) {
       only_cfg = atoi(argv[++i]);
     else if (a == "--depth" && i + 1 < argc)
       depth_override = atoi(argv[++i]);
+    else if ((a == "--args" || a == "--small") && i + 1 < argc) { // experiments: one pass with these argument sets
+      std::vector<int>& dst = a == "--args" ? args_override : small_override;
+      for (char* tok = strtok(argv[++i], ","); tok; tok = strtok(nullptr, ",")) dst.push_back(atoi(tok));
+    }
   }
   reg_cap<2>();
   reg_cap<4>();
@@ -1226,21 +1239,26 @@ int main(int argc, char** argv) {
 
   // Argument sets: {0,1,2,3} plus boundary-1/boundary/boundary+1 for the bucket boundaries of a
   // default-constructed vector (first bucket F = kDefaultCapacity/2; buckets end at F, 2F, 4F, 8F).
-  Tier t;
-  if (tier == "thorough") {
-    t.depth = 4;
-    t.args2 = {0, 1, 2, 3, 4, 5, 7, 8, 9};
-    t.args4 = {0, 1, 2, 3, 4, 5, 7, 8, 9};
-    t.small2 = {0, 1, 2, 3, 4, 5};
-    t.small4 = {0, 1, 2, 3, 4, 5, 7, 8, 9};
+  std::vector<Tier> passes;
+  auto add_pass = [&](int depth, std::vector<int> a2, std::vector<int> a4, std::vector<int> s2, std::vector<int> s4) {
+    Tier t;
+    t.depth = depth;
+    t.args2 = a2;
+    t.args4 = a4;
+    t.small2 = s2;
+    t.small4 = s4;
+    passes.push_back(t);
+  };
+  const std::vector<int> A6 = {0, 1, 2, 3, 4, 5}, A9 = {0, 1, 2, 3, 4, 5, 7, 8, 9};
+  if (!args_override.empty()) {
+    add_pass(depth_override ? depth_override : 3, args_override, args_override, small_override.empty() ? args_override : small_override,
+             small_override.empty() ? args_override : small_override);
+  } else if (tier == "thorough") {
+    add_pass(3, A9, A9, A9, A9);
+    add_pass(4, {0, 1, 2, 3}, {0, 1, 2, 3}, {0, 1, 2}, {0, 1, 2});
   } else {
-    t.depth = 3;
-    t.args2 = {0, 1, 2, 3, 4, 5};
-    t.args4 = {0, 1, 2, 3, 4, 5, 7, 8, 9};
-    t.small2 = {0, 1, 2, 3, 4, 5};
-    t.small4 = {0, 1, 2, 3, 4, 5};
+    add_pass(depth_override ? depth_override : 3, A6, A6, A6, A6);
   }
-  if (depth_override) t.depth = depth_override;
 
   if (!replay_file.empty()) {
     FILE* f = fopen(replay_file.c_str(), "r");
@@ -1274,7 +1292,7 @@ int main(int argc, char** argv) {
     printf("REPLAY config %s\nREPLAY ops %s\n", cfg_text(id).c_str(), hist_text(h).c_str());
     t_slot->cfg.store(id);
     int rc = 0;
-    g_fns[id](id, t, &h, nullptr, &rc);
+    g_fns[id](id, passes, &h, nullptr, &rc);
     return rc;
   }
 
@@ -1312,7 +1330,7 @@ int main(int argc, char** argv) {
         int id = jobs[j];
         t_slot->cfg.store(id);
         int rc = 0;
-        g_fns[id](id, t, nullptr, &results[id], &rc);
+        g_fns[id](id, passes, nullptr, &results[id], &rc);
       }
       t_slot->active.store(0);
       done.fetch_add(1);
@@ -1359,12 +1377,9 @@ int main(int argc, char** argv) {
   for (int id : todo) {
     ConfigResult& r = results[id];
     report.evaluations += r.evaluations;
-    for (uint64_t h : r.distinct) {
-      if (report.distinct.size() < 2000000) {
-        report.distinct.insert(h);
-      } else
-        report.distinct_overflow++; // every (state, op) pair is a distinct history by construction
-    }
+    // every (merged state, op) pair is a distinct history by construction: hash a few, count the rest
+    for (uint64_t h : r.distinct) report.distinct.insert(h);
+    report.distinct_overflow += r.nontrivial - r.distinct.size();
     for (auto& s : r.samples) report.sample(s);
     diag += r.diag_use_nonlive;
     if (diag_first.empty() && !r.diag_use_nonlive_first.empty()) diag_first = cfg_text(id) + ": " + r.diag_use_nonlive_first;
@@ -1392,18 +1407,22 @@ int main(int argc, char** argv) {
   std::stable_sort(viols.begin(), viols.end(), [](const MV& a, const MV& b) { return a.len < b.len; });
   for (auto& v : viols) report.violation(v.msg, v.replay);
 
+  std::string pass_text;
+  for (size_t i = 0; i < passes.size(); i++)
+    pass_text += std::string(i ? " + " : "") + "[depth " + std::to_string(passes[i].depth) + ", size arguments cap2 " + ints(passes[i].args2) +
+        " cap4 " + ints(passes[i].args4) + ", counts of the two-argument insert forms cap2 " + ints(passes[i].small2) + " cap4 " +
+        ints(passes[i].small4) + "]";
   report.rule =
       "non-trivial = history during which v or w held elements beyond its first bucket (size > firstBucketLen_), i.e. the "
       "sequence crossed a bucket boundary; every (merged state, operation) pair executed is a distinct history";
   report.domain =
-      "all operation histories of length <= " + std::to_string(t.depth) +
+      "all operation histories of length <= depth (per pass, see below)"
       " from two default-constructed vectors (v,w) over the alphabet {push_back copy/move, emplace_back, pop_back, clear, "
       "grow_by(n | n,val | range | ilist), grow_by_generator, grow_to_at_least(n | n,val), resize(n | n,val), reserve, "
       "shrink_to_fit, erase(pos), erase(first,last), insert(pos, const& | && | n,val | range | ilist | alias of v.back()), "
       "assign(n,val | range), v=w, w=v, v=move(w), w=move(v), member and free swap, v=v, re-construction of v by ctor(default | "
-      "n,ReserveTag | n | n,val | range | size,range(list iterators) | ilist | copy v | move v | copy w | move w)}; size arguments "
-      "cap2 " + ints(t.args2) + " cap4 " + ints(t.args4) + ", insert counts cap2 " + ints(t.small2) + " cap4 " + ints(t.small4) +
-      ", ilist lengths {0,1,2,3,5}, positions = those arguments <= size plus size-1 and size; histories reaching the same "
+      "n,ReserveTag | n | n,val | range | size,range(list iterators) | ilist | copy v | move v | copy w | move w)}; passes: " + pass_text +
+      "; ilist lengths {0,1,2,3,5}, positions = those arguments <= size plus size-1 and size; histories reaching the same "
       "canonical state (contents of v and w, firstBucketShift_, allocated-bucket mask, shouldDealloc mask, taint) merged; "
       "histories whose last step broke contents/positions are not extended, histories with a lifetime violation are extended "
       "with lifetime checks off; " + std::to_string(todo.size()) +
